@@ -164,8 +164,13 @@ func VerifC04_v2_strs() {
 	sPresent := nondetBool("s-present")
 	s := nondetStringUpTo("s", deep(4))
 	verifAssume(utf8.ValidString(s)) // JSON strings are valid UTF-8
-	var e, pat, ip, ipp *string
-	switch nondetChoice("which-optional", 5) {
+	var e, pat, ip, ipp, ipa *string
+	switch nondetChoice("which-optional", 6) {
+	case 5:
+		// any IP address: both families are acceptable
+		vals := []string{"1.2.3.4", "::1", "2001:db8::1", "1.2.3", "x", "::ffff:1.2.3.4"}
+		v := vals[nondetChoice("ipa", len(vals))]
+		ipa = &v
 	case 4:
 		v := nondetString("ipp-a", 1) + "." + nondetString("ipp-b", 2) + ".0.1"
 		ipp = &v
@@ -195,7 +200,7 @@ func VerifC04_v2_strs() {
 			if sPresent {
 				b.S = &s
 			}
-			b.E, b.Pat, b.IP, b.Ipp = e, pat, ip, ipp
+			b.E, b.Pat, b.IP, b.Ipp, b.Ipa = e, pat, ip, ipp, ipa
 			return nil
 		}}
 	}
@@ -227,6 +232,9 @@ func VerifC04_v2_strs() {
 			rules["invalid_format"] = true
 		}
 	}
+	if ipa != nil && net.ParseIP(*ipa) == nil {
+		rules["invalid_format"] = true
+	}
 	if ipp != nil {
 		// both a format and a pattern: each is enforced
 		parsed := net.ParseIP(*ipp)
@@ -250,7 +258,7 @@ func VerifC04_v2_strs() {
 		verifAssert("accepted:hs", (got.Hs != nil) == hsPresent && (got.Hs == nil || *got.Hs == hs))
 	}
 	// ---- C14 (format keywords are advisory in OpenAPI and are not compared)
-	if ip == nil && ipp == nil {
+	if ip == nil && ipp == nil && ipa == nil {
 		parts := map[string]any{}
 		b := &server.StrsRequestBody{E: e, Pat: pat}
 		if sPresent {
